@@ -2,6 +2,7 @@ package props
 
 import (
 	"fmt"
+	"go/token"
 	"strings"
 
 	"golang.org/x/tools/go/ssa"
@@ -104,6 +105,41 @@ func (s *sess) refusalProblems(t *an.Trace, allowStateToNonLogged bool) []string
 	return probs
 }
 
+// checkParseErrorPaths (C16.J1, C07.G4, C06.T3): on every path of an administrative handler on which Unmarshal failed there is
+// exactly one Reject, built from the raw bytes, no state change, no cancellation, no settings change, nothing started, and the
+// handler is done. (A damaged Logon that is rejected and then processed all the same logs the session on.)
+func (s *sess) checkParseErrorPaths(rule, kind string, fn *ssa.Function, traces []*an.Trace) {
+	c := s.c
+	hn := "inbound:" + kind
+	// J1: parse-error paths
+	var bad []string
+	nFail := 0
+	for _, t := range traces {
+		oc, _ := unmarshalOutcome(t)
+		if oc != "fail" {
+			if oc == "" {
+				bad = append(bad, "the result of Unmarshal is not tested on path: "+traceStr(t))
+			}
+			continue
+		}
+		nFail++
+		if pr := s.refusalProblems(t, false); len(pr) > 0 {
+			bad = append(bad, strings.Join(pr, "; ")+" on path: "+traceStr(t))
+		}
+		if countCalls(t, "ValueByTag") == 0 {
+			bad = append(bad, "the Reject for a damaged message is not built from the raw bytes (no ValueByTag lookup) on path: "+traceStr(t))
+		}
+	}
+	ob := c.Ob(rule, hn, "parse-error paths reject once and change nothing", fn.Pos())
+	if nFail == 0 {
+		ob.Fail("no path handles an Unmarshal error")
+	} else if len(bad) > 0 {
+		ob.Fail("%s", bad[0])
+	} else {
+		ob.Ok("%d parse-error path(s): exactly one raw-bytes Reject, no state change, no cancel, returns true", nFail)
+	}
+}
+
 func runC16(c *core.Ctx, o Options) {
 	c.Explanation = "For each of the five administrative inbound handlers of package session, all acyclic SSA paths (RejectMessage, processIncSeq … spliced in) are enumerated and classified " +
 		"by the outcome of the Unmarshal call and by what the first read of Session.state is known to have returned. Rule J1: parsing is the first event, of the handler's own input, into a fresh builder; the parse-error path " +
@@ -126,33 +162,8 @@ func runC16(c *core.Ctx, o Options) {
 		traces := s.tr.Traces(fn, s.m.AllStates)
 		nPaths += len(traces)
 		s.checkParseFirst("J1", kind, fn, traces)
-		// J1: parse-error paths
+		s.checkParseErrorPaths("J1", kind, fn, traces)
 		var bad []string
-		nFail := 0
-		for _, t := range traces {
-			oc, _ := unmarshalOutcome(t)
-			if oc != "fail" {
-				if oc == "" {
-					bad = append(bad, "the result of Unmarshal is not tested on path: "+traceStr(t))
-				}
-				continue
-			}
-			nFail++
-			if pr := s.refusalProblems(t, false); len(pr) > 0 {
-				bad = append(bad, strings.Join(pr, "; ")+" on path: "+traceStr(t))
-			}
-			if countCalls(t, "ValueByTag") == 0 {
-				bad = append(bad, "the Reject for a damaged message is not built from the raw bytes (no ValueByTag lookup) on path: "+traceStr(t))
-			}
-		}
-		ob := c.Ob("J1", hn, "parse-error paths reject once and change nothing", fn.Pos())
-		if nFail == 0 {
-			ob.Fail("no path handles an Unmarshal error")
-		} else if len(bad) > 0 {
-			ob.Fail("%s", bad[0])
-		} else {
-			ob.Ok("%d parse-error path(s): exactly one raw-bytes Reject, no state change, no cancel, returns true", nFail)
-		}
 		// J2
 		var permitted an.StateSet
 		switch kind {
@@ -193,7 +204,7 @@ func runC16(c *core.Ctx, o Options) {
 				bad = append(bad, fmt.Sprintf("state %s: the Reject is not built from the raw bytes (no ValueByTag lookup of MsgSeqNum): when the sequence number is missing or not numeric the Reject carries RefSeqNum=0 instead of naming the tag; path: %s", s.m.SetString(read), traceStr(t)))
 			}
 		}
-		ob = c.Ob("J2", hn, "not-permitted-in-this-state paths reject once and keep logged-on-ness", fn.Pos())
+		ob := c.Ob("J2", hn, "not-permitted-in-this-state paths reject once and keep logged-on-ness", fn.Pos())
 		switch {
 		case len(bad) > 0:
 			ob.Fail("%s", bad[0])
@@ -306,7 +317,37 @@ func runC16(c *core.Ctx, o Options) {
 		c.Check(n >= 2, "J4", "ValueByTag", "anchored lookups found", vbt.Pos(), fmt.Sprint(n), "ValueByTag no longer searches with anchored needles")
 	}
 	c.Extra["paths"] = nPaths
-	c.RuleMin = map[string]int{"J1": 16, "J2": 5, "J3": 2, "J4": 14}
+	// J2 (premise): the all-types incoming handler takes any inbound message — a damaged one too — for the answer to a pending probe
+	// and restores SuccessfulLogged from WaitingTestReqAnswer. That leaves logged-on-ness unchanged only because the probe state is
+	// entered from SuccessfulLogged alone: every path that sets WaitingTestReqAnswer has read the state as SuccessfulLogged.
+	{
+		WT := s.m.StateVals["WaitingTestReqAnswer"]
+		nSet, bad := 0, ""
+		var where token.Pos
+		for _, r := range s.roots() {
+			for _, t := range s.tr.Traces(r.Fn, s.m.AllStates) {
+				for _, e := range t.Events {
+					if e.Kind != "state" || e.To != WT {
+						continue
+					}
+					nSet++
+					read, has := s.guardSet(t)
+					if !has || read != sl {
+						bad = fmt.Sprintf("%s enters WaitingTestReqAnswer with the state read as %s: from there the next inbound message of any kind, valid or not, makes the session logged on", r.Name(), s.m.SetString(read))
+						where = e.Pos
+					}
+				}
+			}
+		}
+		c.Check(bad == "" && nSet > 0, "J2", "WaitingTestReqAnswer", "the probe state is entered only from SuccessfulLogged", where, fmt.Sprintf("%d site(s)", nSet), bad)
+	}
+	// J5 (premise): "rejected" for a damaged message means the integrity check sees the damage — the rules of C03 (both checks
+	// guard acceptance, mirror arithmetic on the bytes as received, exact parsing of the declared values) hold
+	c.RulePrefix = "J5"
+	integrityRules(c)
+	c.RulePrefix = ""
+	c.Explanation += " J2 premise: every path that sets WaitingTestReqAnswer has read the state as SuccessfulLogged (the all-types handler takes any inbound message, damaged ones too, for the answer to the probe). J5 premise: the rules V1–V6 of C03 hold (a damaged message is rejected only if the integrity check sees the damage)."
+	c.RuleMin = map[string]int{"J1": 16, "J2": 5, "J3": 2, "J4": 14, "J5": 12}
 	c.MinObl = 5*5 + 2
 }
 
@@ -511,7 +552,10 @@ func runC14(c *core.Ctx, o Options) {
 	// Q3b: nothing between the handler and the outbound queue runs in another goroutine
 	checkSendChainNoSpawn(c, s, "Q3")
 	c.Extra["paths"] = len(traces)
-	c.RuleMin = map[string]int{"Q0": 8, "Q1": 1, "Q2": 1, "Q3": 7, "Q4": 12, "Q5": 1}
+	// Q6: the reply that the session queued is taken off the queue by the connection's writer and written — not measured and dropped
+	checkNoMessageDropped(c, "Q6")
+	c.Explanation += " Q6 (= C04.F7): the reply the session queued is taken off the queue by the connection's writer and written — no path receives a message from a byte-message channel and lets it go."
+	c.RuleMin = map[string]int{"Q0": 8, "Q1": 1, "Q2": 1, "Q3": 7, "Q4": 12, "Q5": 1, "Q6": 5}
 	c.MinObl = 7
 }
 
